@@ -183,6 +183,11 @@ func (p Precompile) TokenFromInputs(ctx sdk.Context, args []interface{}) (assets
 	}
 	// #nosec G115
 	asset.Decimals = uint32(decimal)
+	// validate the decimals before anything is registered in the oracle module: `SetStakingAssetInfo`
+	// rejects such an asset only after the oracle token and feeder have already been stored.
+	if asset.Decimals > assetstypes.MaxDecimal {
+		return assetstypes.AssetInfo{}, oracletypes.OracleInfo{}, fmt.Errorf("the decimal is greater than the MaxDecimal, decimal:%d, MaxDecimal:%d", asset.Decimals, assetstypes.MaxDecimal)
+	}
 
 	name, ok := args[3].(string)
 	if !ok {
